@@ -215,7 +215,12 @@ func handleLeafValue(nodemap map[string]interface{}, value *configapi.TypedValue
 	case configapi.ValueType_BOOL:
 		(nodemap)[pathelems[0]] = (*configapi.TypedBool)(value).Bool()
 	case configapi.ValueType_BYTES:
-		(nodemap)[pathelems[0]] = (*configapi.TypedBytes)(value).ByteArray()
+		bytes := (*configapi.TypedBytes)(value).ByteArray()
+		if bytes == nil {
+			// an empty binary value is the empty string, not null
+			bytes = []byte{}
+		}
+		(nodemap)[pathelems[0]] = bytes
 	case configapi.ValueType_LEAFLIST_STRING:
 		(nodemap)[pathelems[0]] = (*configapi.TypedLeafListString)(value).List()
 	case configapi.ValueType_LEAFLIST_INT:
@@ -243,7 +248,17 @@ func handleLeafValue(nodemap map[string]interface{}, value *configapi.TypedValue
 	case configapi.ValueType_LEAFLIST_BOOL:
 		(nodemap)[pathelems[0]] = (*configapi.TypedLeafListBool)(value).List()
 	case configapi.ValueType_LEAFLIST_DECIMAL:
-		(nodemap)[pathelems[0]] = (*configapi.TypedLeafListDecimal)(value).ListFloat()
+		if jsonRFC7951 {
+			// RFC 7951 represents decimal64 as a string, as the scalar case does
+			digits, precision := (*configapi.TypedLeafListDecimal)(value).List()
+			asStrList := make([]string, 0, len(digits))
+			for _, d := range digits {
+				asStrList = append(asStrList, (*configapi.TypedDecimal)(configapi.NewTypedValueDecimal(d, precision)).String())
+			}
+			(nodemap)[pathelems[0]] = asStrList
+		} else {
+			(nodemap)[pathelems[0]] = (*configapi.TypedLeafListDecimal)(value).ListFloat()
+		}
 	case configapi.ValueType_LEAFLIST_FLOAT:
 		(nodemap)[pathelems[0]] = (*configapi.TypedLeafListFloat)(value).List()
 	case configapi.ValueType_LEAFLIST_BYTES:
